@@ -271,6 +271,30 @@ func buildCTCases(rng *gen.RNG, g ctConfig, count bool, id *int) []ctCase {
 			ws = append(ws, mk(string(b), k, fam, count))
 		}
 	}
+	// the same wrong codes written in other decimal digit scripts (UTF-8 multi-byte): a validator that understands
+	// them must not do position-dependent work there either; counts are compared within each script
+	if count && g.LeadingZeros == 0 && ((g.Digits == 9 && (g.Target == "hotp" || ctBothFamilies)) || (g.Digits == 7 && ctBothFamilies) || (g.Wasm && g.Digits == 6)) {
+		for _, sc := range []struct {
+			name string
+			zero rune
+		}{{"arabic-indic", 0x0660}, {"persian", 0x06F0}, {"fullwidth", 0xFF10}} {
+			if sc.name == "fullwidth" && !ctBothFamilies {
+				continue
+			}
+			for _, k := range []int{0, n / 2, n - 1} {
+				b := []byte(E)
+				b[k] = '0' + (E[k]-'0'+1+byte(rng.Intn(8)))%10
+				if _, in := window[string(b)]; in {
+					continue
+				}
+				var sb strings.Builder
+				for _, ch := range b {
+					sb.WriteRune(sc.zero + rune(ch-'0'))
+				}
+				ws = append(ws, mk(sb.String(), k, "script:"+sc.name, count))
+			}
+		}
+	}
 	sort.SliceStable(ws, func(i, j int) bool {
 		if ws[i].Family != ws[j].Family {
 			return ws[i].Family < ws[j].Family
@@ -347,7 +371,11 @@ func judgeCounts(c *Ctx, cases []ctCase, o *gdbOut, where string) {
 		if !ok {
 			continue
 		}
-		groups[k.Config] = append(groups[k.Config], row{k, cnt.Total, cnt.ByFunc})
+		class := "" // ASCII families are compared with each other; each other digit script within itself
+		if f := strings.TrimSuffix(k.Family, "/reverse-pass"); strings.HasPrefix(f, "script:") {
+			class = " [" + f + "]"
+		}
+		groups[k.Config+class] = append(groups[k.Config+class], row{k, cnt.Total, cnt.ByFunc})
 		r.Eval(1)
 		r.Count("validations_single_stepped", 1)
 		r.Count("instructions_counted", cnt.Total)
